@@ -291,6 +291,7 @@ type State struct {
 	nopanic      bool
 	retOrd       int
 	skolems      []*Term
+	havocNames   []string // heap arrays released wholesale by a callee: later first touches start from a fresh symbol
 }
 
 func (st *State) clone() *State {
@@ -369,6 +370,18 @@ func (st *State) addFact(t *Term) {
 	}
 	st.factSet[k] = true
 	st.facts = append(st.facts, t)
+}
+
+func (st *State) assumeKey() string {
+	var lp, lf *Term
+	if n := len(st.pc); n > 0 {
+		lp = st.pc[n-1]
+	}
+	if n := len(st.facts); n > 0 {
+		lf = st.facts[n-1]
+	}
+	_ = lf
+	return fmt.Sprintf("%p/%d", lp, len(st.pc))
 }
 
 func (st *State) freshSym(hint, sort string) *Term {
